@@ -1,8 +1,11 @@
 #![allow(dead_code, unused_imports, unused_macros, unused_variables, unused_mut, clippy::all)]
 pub mod util;
+pub mod mvalue;
 #[cfg(kani)]
 mod gen;
 #[cfg(kani)]
 mod c09;
+#[cfg(kani)]
+mod c07;
 #[cfg(kani)]
 mod setup;
